@@ -26,6 +26,9 @@ var scenarios = []struct{ name, text string }{
 	{"two-definition-conflicts", "grammar cf ;\nAA = /[a-c]+/ ;\nBB = /[a-z]+/ ;\nCC = /[0-4]+/ ;\nDD = /[0-9]+/ ;\nstart = AA BB CC DD ;\n"},
 	{"two-duplicate-values", "grammar dv ;\nAA = \"x\" ;\nBB = \"x\" ;\nCC = \"y\" ;\nDD = \"y\" ;\nstart = AA BB CC DD ;\n"},
 	{"undefined-and-multiple", "grammar um ;\nAA = \"x\" ;\nAA = \"z\" ;\nBB = \"u\" ;\nBB = \"v\" ;\nstart = AA BB UU VV ;\n"},
+	{"mixed-kinds-multiple", "grammar mk ;\nIF = \"if\" ;\nID = /[a-z]+/ ;\nIF = \"fi\" ;\nID = /[a-z]*/ ;\nNN = $NUMBER ;\nNN = /[0-9]/ ;\nstart = IF ID NN ;\n"},
+	{"mixed-kinds-same-value", "grammar ms ;\nstart = AA BB \"x\" CC DD \"y\" ;\nAA = \"x\" ;\nCC = /y/ ;\nDD = \"y\" ;\nBB = \"q\" ;\n@left AA ;\n@right AA BB ;\n"},
+	{"uses-before-definitions", "grammar ub ;\n@left \"+\" PLUS ;\nstart = e ;\ne = e \"+\" e | e PLUS e | UU | VV | WW ;\nPLUS = \"plus\" ;\n"},
 	{"lalr-conflicts", "grammar lc ;\nstart = e ;\ne = e \"+\" e | e \"*\" e | \"i\" ;\n"},
 	{"valid-with-operators", "grammar ops ;\nID = $ID ;\nWS = $WS ;\n@left \"*\" ;\n@left \"+\" ;\nstart = { stmt } ;\nstmt = ID \"=\" e \";\" ;\ne = e \"+\" e | e \"*\" e | [ \"-\" ] ID | \"(\" e \")\" ;\n"},
 }
@@ -135,7 +138,9 @@ type replayInput struct {
 	Choices  []int
 }
 
-func inRepo(site string) bool { return strings.HasPrefix(site, "internal/") || strings.HasPrefix(site, "cmd/") }
+func inRepo(site string) bool {
+	return strings.HasPrefix(site, "internal/") || strings.HasPrefix(site, "cmd/")
+}
 
 func main() {
 	r := ev.Start("C15", "model_checking")
@@ -176,7 +181,7 @@ func main() {
 		freshProcesses(r)
 	}
 	if r.Fork(16) {
-		r.Set("rule", "6 scenarios (every map on the path has >= 2 entries); one execution = spec.Parse + golang.Generate into a fresh directory with a recording UI; every range over a Go map in /repo and in the dependency and every shuffle of the dependency is a choice point; all executions with at most d non-default orders are enumerated (quick: d=1 over all /repo points and the first 3 occurrences of every dependency site; thorough: d=2 over /repo points, d=1 over the first 40 occurrences of every dependency site); states = distinct observations (must be 1 per scenario), transitions = executions")
+		r.Set("rule", "9 scenarios (every map on the path has >= 2 entries); one execution = spec.Parse + golang.Generate into a fresh directory with a recording UI; every range over a Go map in /repo and in the dependency and every shuffle of the dependency is a choice point; all executions with at most d non-default orders are enumerated (quick: d=1 over all /repo points and the first 3 occurrences of every dependency site; thorough: d=2 over /repo points, d=1 over the first 40 occurrences of every dependency site); states = distinct observations (must be 1 per scenario), transitions = executions")
 		r.Set("evaluations", r.Get("executions"))
 		r.Set("transitions", r.Get("executions"))
 		r.Set("traces_validated_against_impl", r.Get("executions"))
@@ -258,7 +263,7 @@ func main() {
 			r.Set("exhaustive", false)
 		}
 		for _, d := range x.Diverged {
-			ev.Fatal("scenario %s: exploration diverged while replaying a prefix: %s", sc.name, d)
+			r.InternalError("scenario %s: exploration diverged while replaying a prefix: %s", sc.name, d)
 		}
 		r.Add("states", 0)
 		if shard == 0 {
